@@ -154,9 +154,25 @@ type Prop[C any] struct {
 	// PanicKey, when non-empty, turns a panic inside Run into a finding with that key prefix
 	// (properties that state "never panics"). Otherwise a panic propagates (harness error).
 	PanicKey string
+	// Retry, when set and true for a finding, marks it as resting on a real-time bound (watchdog):
+	// the case is run once more and the finding only counts if it reproduces with the same key;
+	// a single expiry is "inconclusive" (counted), never a violation.
+	Retry func(f *Finding) bool
 }
 
 func (p Prop[C]) run(c C) (x *Ctx, f *Finding) {
+	x, f = p.runOnce(c)
+	if f != nil && p.Retry != nil && p.Retry(f) {
+		stats.Inconclusive()
+		_, f2 := p.runOnce(c)
+		if f2 == nil || f2.Key != f.Key {
+			return x, nil
+		}
+	}
+	return x, f
+}
+
+func (p Prop[C]) runOnce(c C) (x *Ctx, f *Finding) {
 	x = &Ctx{}
 	if p.PanicKey != "" {
 		defer func() {
